@@ -18,6 +18,12 @@ int vp_nthreads;               /* what get_nthreads() returns in this instance *
 double vp_res[VP_MAXA]; double vp_xc[VP_MAXA][VP_MAXF]; long vp_h1n[VP_MAXA]; long vp_h1[VP_MAXA][VP_MAXF];
 
 int get_nthreads(void) { return vp_nthreads; }
+/* libc memcpy, specialised: walk_descents only copies whole descent_trial records; a typed struct copy has the
+ * same effect and keeps CBMC's memory model typed (the byte-wise builtin makes every later access byte-level) */
+void* memcpy(void* dst, const void* src, size_t n) {
+	__CPROVER_assert(n == sizeof(descent_trial), "memcpy model: only whole descent_trial records are copied");
+	*(descent_trial*)dst = *(const descent_trial*)src; return dst;
+}
 double calc_residual(cholmod_sparse* AtA, cholmod_dense* Atb, cholmod_dense* x, cholmod_common* c) { return nondet_double(); }
 void qsort(void* base, size_t n, size_t size, int (*cmp)(const void*, const void*)) {
 	/* insertion sort with the caller's comparison (n is tiny in every instance) */
